@@ -58,7 +58,7 @@ func checkResume(r *Run, twinOuts string, spec []CrashSpec) []Violation {
 	desc := fmt.Sprintf("%v", spec)
 	// (4) a handled signal leaves the pipestance unlocked
 	for i, p := range r.Mrps {
-		if i < len(spec) && (spec[i].Kind == "sigterm" || spec[i].Kind == "sigint") && p.Exited {
+		if i < len(spec) && (spec[i].Kind == "sigterm" || spec[i].Kind == "sigint" || spec[i].Kind == "sigterm-twice") && p.Exited {
 			r.Probes["signal-exit-checked"]++
 		}
 	}
@@ -366,7 +366,7 @@ func c05Case(c *Ctx) {
 	if c.thorough() {
 		npoints = 24
 	}
-	kinds := []string{"kill", "kill", "kill", "sigterm", "sigterm", "sigint", "powerloss", "powerloss", "torn", "kill"}
+	kinds := []string{"kill", "kill", "kill", "sigterm", "sigterm", "sigint", "powerloss", "powerloss", "torn", "kill", "sigterm-twice"}
 	c.Res.Nontrivial = len(twin.Jobs) >= 2
 	for i := 0; i < npoints; i++ {
 		cfg := mk()
